@@ -593,6 +593,13 @@ func main() {
 	w := out.New(*outDir)
 	defer w.Close()
 	scs := generate(*tier, rng.FromEnv(0xC11))
+	// Run in a seeded random order: if the time cap cuts the run short on a loaded machine,
+	// every family loses the same share instead of the last families disappearing.
+	sh := rng.FromEnv(0x5C11)
+	for i := len(scs) - 1; i > 0; i-- {
+		j := sh.Intn(i + 1)
+		scs[i], scs[j] = scs[j], scs[i]
+	}
 	w.Exhaust = false
 	w.Rule = rule(*tier)
 	budget := 40 * time.Second
